@@ -2,6 +2,7 @@
 import json
 from vcheck import *
 from wcommon import *
+import c06x
 
 
 def run(tier, seed):
@@ -15,10 +16,12 @@ def run(tier, seed):
     if not binp:
         ck.violation("harness-build", {"kind": "build"}, {"log": log[-3000:]}, no_input=True)
         return ck.finish()
-    rc, out = sh([binp, "-seed", str(seed), "-n", str(n)], timeout=1200)
+    nx = 70 if tier == "quick" else 700
+    rc, out = sh([binp, "-seed", str(seed), "-n", str(n), "-nx", str(nx)], timeout=1200)
     lines = jlines(out)
     starts = [x for x in lines if x.get("kind") == "startfail"]
-    cases = [x for x in lines if x.get("kind") != "startfail"]
+    xcases = [x for x in lines if x.get("kind") == "xlinked"]
+    cases = [x for x in lines if x.get("kind") not in ("startfail", "xlinked")]
     if rc != 0 or not cases:
         ck.violation("process-crash", {"kind": "process-crash"}, {"rc": rc, "tail": out[-3000:]})
         return ck.finish()
@@ -141,6 +144,7 @@ def run(tier, seed):
             viol("engines-differ", {"kind": "engines-differ"}, {"case": c})
         if a.get("other") != b.get("other"):
             viol("other-instance-differs", {"kind": "other-instance"}, {"case": c})
+    c06x.xlinked_part(ck, xcases, viol, dist)
     if not proofs_ok and not ck.violations:
         ck.violation("proof-broken", {"kind": "proof-broken"}, getattr(ck, "proof_failure", {}), no_input=True)
     return ck.finish()
